@@ -65,38 +65,43 @@ def encCorr (t : WrapT) (orig pred : Int) : Int :=
   else if corr > t.maxCorr then corr - t.maxDif
   else corr
 
-/-- `PredictionSchemeWrapDecodingTransform::ComputeOriginalValue`, one component, **as written**:
-    the sum is formed in `uint32_t` and cast back to `int32_t` (`wrap32`) *before* it is compared
-    with `max_value_` / `min_value_`.  The subsequent `-= max_dif` (value `> maxV`) and
-    `+= max_dif` (value `< minV`) cannot overflow int32 (`maxV − maxDif = minV − 1`). -/
-def decOrig (t : WrapT) (pred corr : Int) : Int :=
+/-- `PredictionSchemeWrapDecodingTransform::ComputeOriginalValue`, one component, as it was
+    written in the pinned tree **before** the `fix:` commit (finding F1): the sum was formed in
+    `uint32_t` and cast back to `int32_t` (`wrap32`) *before* it was compared with
+    `max_value_` / `min_value_`. Kept as the historical model for `wrap_counterexample`. -/
+def decOrigUnfixed (t : WrapT) (pred corr : Int) : Int :=
   let o := wrap32 (clamp t pred + corr)
   if o > t.maxV then o - t.maxDif
   else if o < t.minV then o + t.maxDif
   else o
 
-/-- The intended repair of `ComputeOriginalValue` (finding F1): the sum is formed in `int64_t`
-    (exact for two int32 operands), compared and un-wrapped there, and only then converted to
-    `int32_t`:
+/-- `PredictionSchemeWrapDecodingTransform::ComputeOriginalValue`, one component, as written
+    (after the `fix:` commit for F1): the sum is formed in `int64_t` (exact for two int32
+    operands), compared and un-wrapped there, and only then converted to `int32_t`:
     ```
-      int64_t v = static_cast<int64_t>(predicted_vals[i]) + static_cast<int64_t>(corr_vals[i]);
-      if (v > this->max_value())      v -= this->max_dif();
-      else if (v < this->min_value()) v += this->max_dif();
-      out_original_vals[i] = static_cast<DataTypeT>(v);
+      int64_t value = static_cast<int64_t>(predicted_vals[i]) + static_cast<int64_t>(corr_vals[i]);
+      if (value > this->max_value())      value -= this->max_dif();
+      else if (value < this->min_value()) value += this->max_dif();
+      out_original_vals[i] = static_cast<DataTypeT>(static_cast<uint32_t>(value));
     ```
     The final cast (`wrap32`) is the identity for every correction produced by the encoder; it
     only matters for corrupt streams. -/
-def decOrigFixed (t : WrapT) (pred corr : Int) : Int :=
+def decOrig (t : WrapT) (pred corr : Int) : Int :=
   let v := clamp t pred + corr
   let v := if v > t.maxV then v - t.maxDif
            else if v < t.minV then v + t.maxDif
            else v
   wrap32 v
 
+/-- alias kept for the proofs that were written against the proposed repair -/
+abbrev decOrigFixed := decOrig
+
 /-- `ComputeCorrection` on a whole entry of `num_components` values. -/
 def encCorrV (t : WrapT) (orig pred : List Int) : List Int := List.zipWith (encCorr t) orig pred
 /-- `ComputeOriginalValue` on a whole entry (as written). -/
 def decOrigV (t : WrapT) (pred corr : List Int) : List Int := List.zipWith (decOrig t) pred corr
+/-- pre-fix `ComputeOriginalValue` on a whole entry. -/
+def decOrigUnfixedV (t : WrapT) (pred corr : List Int) : List Int := List.zipWith (decOrigUnfixed t) pred corr
 /-- repaired `ComputeOriginalValue` on a whole entry. -/
 def decOrigFixedV (t : WrapT) (pred corr : List Int) : List Int :=
   List.zipWith (decOrigFixed t) pred corr
